@@ -10,7 +10,7 @@ import (
 )
 
 //verif:ints lia
-//verif:unwind 64
+//verif:unwind 5000
 //verif:maxconcretize 32
 //verif:maxdecisions 4000
 
@@ -193,7 +193,7 @@ func verifC26JWS(s string) bool {
 //verif:stub log/slog.Info = verifC26Slog
 //verif:stub log/slog.Debug = verifC26Slog
 //verif:stub log/slog.Error = verifC26Slog
-//verif:bound feature enabled or not; caller unauthenticated / authenticated with ANY principal of 0..2 bytes against the allow-list {"ab"}; limiter fresh or exhausted for the caller; declared Content-Length and actual body length ANY non-negative int64 up to 2^40; JSON well-formed or not; subject credential = an opaque key or one of two JWS-shaped heads, padded to total length 5, 4096 or 4097 (the size boundary), or empty; resolver resolves / does not resolve / is unavailable / fails. The credential's bytes are taint-tracked into every response write and every slog argument. sha256 digest, JSON codec and slog are stubbed.
+//verif:bound feature enabled or not; caller unauthenticated / authenticated with ANY principal of 0..2 bytes against the allow-list {"ab"}; limiter fresh or exhausted for the caller; declared Content-Length and actual body length ANY non-negative int64 up to 2^40; JSON well-formed or not; subject credential = an opaque key or one of two JWS-shaped heads, padded to total length 5, 4096 or 4097 (the size boundary), a 4098-byte credential of 2049 two-byte UTF-8 characters, or empty; resolver resolves / does not resolve / is unavailable / fails. The credential's bytes are taint-tracked into every response write and every slog argument. sha256 digest, JSON codec and slog are stubbed.
 func verifH_C26_handler() { verifC26Handler(false) }
 
 // The JWS-shape screen agrees with the grammar for every credential head.
@@ -308,13 +308,17 @@ func verifC26Handler(symbolicHead bool) {
 		verifC26RawLen = verifNondetInt64("body_len")
 		verifAssume(cl >= -1 && cl <= 1<<40 && verifC26RawLen >= 0 && verifC26RawLen <= 1<<40)
 		verifC26JSONBad = verifNondetBool("bad_json")
-		total = []int{0, 5, 4096, 4097}[verifChoice("token_len", 4)]
+		total = []int{0, 5, 4096, 4097, 4098}[verifChoice("token_len", 5)]
 		// an opaque API key or a JWS-shaped string; the shape screen itself is decided in verifH_C26_jws_screen
 		head = verifTaintString([]string{"k3y!+", "a.b.c", "ab.c."}[verifChoice("token_head", 3)])
 	}
-	if total > 0 {
+	switch {
+	case total == 4098:
+		// 2049 two-byte UTF-8 characters: 4098 bytes but only 2049 characters
+		verifC26Token = verifTaintString(strings.Repeat("\u00e9", 2049))
+	case total > 0:
 		verifC26Token = head + strings.Repeat("x", total-5)
-	} else {
+	default:
 		verifC26Token = ""
 	}
 	r := &http.Request{Method: "POST", Header: http.Header{}, URL: &url.URL{Path: IntrospectEndpoint}, RemoteAddr: "1.2.3.4:5", ContentLength: cl, Body: io.NopCloser(strings.NewReader(""))}
